@@ -121,7 +121,40 @@ def run(tier):
                                      "(a flip next to a concurrent retry tick can remain explainable)" % (
                                          len(bad) - len(ok2), len(bad)))
 
+        # 4. code -> spec at the level of connections: real BitcoinNodes of three verified peers sharing one real
+        #    TxManager and NodeManager (inv / tx / request timeout / the manager's RequestTxs), judged by TLC
+        tp = os.path.join(scratch, "txnet.ndjson")
+        rc, o, err = run_harness(binary, ["txnet", "-seed", str(sd), "-traces", "150" if quick else "1500", "-steps",
+                                          "12" if quick else "16", "-workers", "8", "-out", tp], timeout=3000)
+        if rc != 0:
+            raise Infra("txnet harness failed: " + err[-2000:])
+        net = [json.loads(l) for l in open(tp) if l.strip()]
+        skipped = [t for t in net if t.get("skipped")]
+        if len(skipped) * 10 > len(net) or not net:
+            raise Infra("txnet: %d of %d traces abandoned by the harness: %s" % (len(skipped), len(net), skipped[0]["skipped"] if skipped else ""))
+        net = [t for t in net if not t.get("skipped")]
+        ok, counts = linearize(scratch, "\n".join(json.dumps(t) for t in net) + "\n", 3, 2, "txnet")
+        polls = sum(1 for t in net for r in t["rounds"] for c in r["calls"] if c["op"] == "poll")
+        for i, t in enumerate(net, 1):
+            why = None
+            if t.get("problem"):
+                why = "connections sharing one tx manager: " + t["problem"]
+            elif i not in ok:
+                why = ("connections sharing one tx manager: what the peers were asked for is not a behaviour of TxManager.tla"
+                       + (" (processor/saver counts: %s)" % counts[i] if i in counts else ""))
+            if why:
+                f = match_finding("C06", why)
+                if f:
+                    res.add_known(f, why)
+                    continue
+                res.violation(why + " (trace %d)" % t["id"], {"engine": "txnet", "trace": t})
+        lin_traces += len(net)
+        net_stats = {"traces": len(net), "abandoned_by_harness": len(skipped), "retry_polls_observed": polls,
+                     "calls": sum(len(t["rounds"]) for t in net)}
+        res.sample({"connection_level_trace": [[c["op"], c["n"], c["t"], c["req"], c["txs"]] for r in net[0]["rounds"] for c in r["calls"]]})
+
     res.coverage.update({
+        "connection_level": net_stats,
         "states": states, "transitions": transitions, "traces_validated_against_impl": total_beh + lin_traces,
         "evaluations": total_beh + lin_traces, "distinct_nontrivial": total_beh,
         "rule": "spec->code: every call sequence (Announce/Deliver/Poll/Tick over the nodes and txs) up to the BFS depth, "
